@@ -129,6 +129,15 @@ def asarray(obj, dtype=None, **kw):
         return _np.asarray(obj, dtype=object, **kw)
 
 
+def asanyarray(obj, dtype=None, **kw):
+    if not ACTIVE[0]:
+        return _np.asanyarray(obj, dtype=dtype, **kw)
+    try:
+        return _np.asanyarray(obj, dtype=dtype, **kw)
+    except (TypeError, ValueError, S.KitError):
+        return _np.asanyarray(obj, dtype=object, **kw)
+
+
 def common_type(*arrays):
     if ACTIVE[0]:
         for a in arrays:
@@ -459,6 +468,7 @@ OVERRIDES = {
     "empty_like": empty_like,
     "array": array,
     "asarray": asarray,
+    "asanyarray": asanyarray,
     "common_type": common_type,
     "einsum": einsum,
     "clip": clip,
